@@ -47,6 +47,7 @@ SUBJ = {
  "F59": "rulegen wrote floats with a positive exponent",
  "F60": "the Terraform console reporter panicked (todo!)",
  "F61": "long lines with multi-byte characters made the output writer panic",
+ "F62": "JSON documents given to the library API had floats read one ulp off",
  "F31": "`test` listed the rules of a test case in a different order",
 }
 log = subprocess.run(["git", "-C", "/repo", "log", "--format=%h %s"], capture_output=True, text=True).stdout.splitlines()
